@@ -49,7 +49,8 @@ let () =
       let h = { hR = zi r; hID = b id0; hO = b o; hU = b u; hOE = b oe; hUE = b ue; hPerms = b perms;
                 hP = zi p; hKeyBytes = nat_of_int (int_of_string kb); hPlainMeta = flag plain } in
       let n = int_of_string n in
-      (match open_handler h (flag supplied) (b pw) with
+      (* a password field "!" stands for a candidate the preparation is not defined on *)
+      (match open_handler_prep h (flag supplied) (if pw = "!" then None else Some (b pw)) with
        | Res.Ok (perm, key) ->
          Printf.printf "%s ok %s %s\n" id (string_of_z perm) (hx key);
          items id 0 n rest (fun num gen kind raw ->
@@ -139,7 +140,7 @@ let () =
     | [id; "W"; kind; plain; part] ->
       let k = match kind with
         | "direct" -> WriterModel.KDirect | "member" -> WriterModel.KMember | "container" -> WriterModel.KContainer
-        | "xref" -> WriterModel.KXRefStream | "encrypt" -> WriterModel.KEncryptDict | "id" -> WriterModel.KTrailerID
+        | "identity" -> WriterModel.KCryptIdentity | "xref" -> WriterModel.KXRefStream | "encrypt" -> WriterModel.KEncryptDict | "id" -> WriterModel.KTrailerID
         | _ -> WriterModel.KMetadata in
       let (s, t) = WriterModel.encrypts k (flag plain) in
       Printf.printf "%s %s\n" id (string_of_bool (if part = "s" then s else t))
